@@ -97,6 +97,14 @@ MUTANTS = [
     (CX, "            if not items:\n                raise ValueError(f'empty {name}')", "            if not items:\n                raise KeyError(f'empty {name}')", ['contexts.__init__'], 'breaks'),
     (AI, 'return map(Concept._make, iterconcepts)', 'return iterconcepts', ['algorithms.iterconcepts'], 'breaks'),
     (CM, 'return cls(map(Concept._make, iterconcepts))', 'return cls(iterconcepts)', ['common.frompairs'], 'breaks'),
+    (LT, 'join = self._context._Objects.reduce_or(extents)', 'join = self._context._Objects.reduce_and(extents)', ['lattices.join'], 'breaks'),
+    (LT, 'return self._mapping[meet.double()]', 'return self._mapping[meet]', ['lattices.meet'], 'equivalent'),
+    (LT, 'return self._mapping[join.double()]', 'return self._mapping[join]', ['lattices.join'], 'breaks'),
+    (LT, "        if not key:\n            return self.supremum", "        if not key:\n            return self.infimum", ['lattices.__getitem__.empty'], 'breaks'),
+    (LT, "extent = self._context.extension(properties, raw=True)", "extent = self._context.extension(properties)", ['lattices.__call__'], 'breaks'),
+    (LT, "concepts = tools.maximal(concepts, comparison=Concept.properly_subsumes)", "concepts = tools.maximal(concepts, comparison=Concept.properly_implies)", ['lattices.upset_union'], 'breaks'),
+    (LM, "_next_concepts=operator.attrgetter('lower_neighbors')):", "_next_concepts=operator.attrgetter('upper_neighbors')):", ['members.downset'], 'breaks'),
+    (LM, "        return self._intent.members()\n\n\nclass Atom", "        return self._extent.members()\n\n\nclass Atom", ['members.infimum_minimal'], 'breaks'),
 ]
 
 
